@@ -258,3 +258,23 @@ Example C19_chr_stack_runs_somewhere :
   exists c', crun_in demo_stack_prog 63 c0 = Some c' /\ cpc c' = 777 /\ cr c' 1 = 11 /\ cr c' 15 = 104 /\
              map (mem_read (cmem c')) (103 :: 16384 :: 16385 :: 16386 :: nil) = (16385 :: 16387 :: 1 :: 65 :: nil).
 Proof. exact chr_stack_runs_somewhere. Qed.
+
+(* ---- the register-convention tstrcmp (a Python helper, Model/Stdlib.tstrcmp_reg) is the lexicographic order ------- *)
+From Hera.Proofs Require Import C19_Strcmp.
+
+(* for every memory and any two strings: the result is 0, 0xFFFF (-1) or 1 according to the lexicographic comparison of
+   the two character lists — a proper prefix is smaller — for strings of any length *)
+Theorem C19_tstrcmp_reg_is_lexicographic : forall rd s1 s2, 0 <= rd s1 -> 0 <= rd s2 ->
+  tstrcmp_reg rd s1 s2 = enc (lex (chars rd s1) (chars rd s2)).
+Proof. exact tstrcmp_reg_is_lex. Qed.
+Print Assumptions C19_tstrcmp_reg_is_lexicographic.
+
+Theorem C19_tstrcmp_reg_zero_iff_equal : forall rd s1 s2, 0 <= rd s1 -> 0 <= rd s2 ->
+  (tstrcmp_reg rd s1 s2 = 0 <-> chars rd s1 = chars rd s2).
+Proof. exact tstrcmp_reg_zero_iff_equal. Qed.
+Print Assumptions C19_tstrcmp_reg_zero_iff_equal.
+
+Theorem C19_tstrcmp_reg_antisymmetric : forall rd s1 s2, 0 <= rd s1 -> 0 <= rd s2 ->
+  tstrcmp_reg rd s2 s1 = enc (CompOpp (lex (chars rd s1) (chars rd s2))).
+Proof. exact tstrcmp_reg_antisymmetric. Qed.
+Print Assumptions C19_tstrcmp_reg_antisymmetric.
